@@ -27,18 +27,16 @@ def run(ctx):
                             MaxOps=4 if ctx.thorough else 3))
     h2b = ctx.generate(g2b, workers=4, timeout=1200)
     rng = random.Random(ctx.seed)
-    if not ctx.thorough:
-        # quick tier: a seeded sample of the witness histories (the thorough tier runs them all)
-        h2 = rng.sample(h2, min(len(h2), 900))
-        h2b = rng.sample(h2b, min(len(h2b), 500))
+    # a seeded sample of the witness histories (the thorough tier takes ten times more)
+    h2 = rng.sample(h2, min(len(h2), 9000 if ctx.thorough else 900))
+    h2b = rng.sample(h2b, min(len(h2b), 5000 if ctx.thorough else 500))
     hists += h2 + h2b
     # avoidance share: the same exploration without empty payloads, so that behaviour behind the
     # empty-payload findings is also judged strictly
     g2c = ctx.instance("G2c_C01", "VolumeImpl", volfam.GEN_W,
                        dict(base, Datas={"a", "b"}, MetaSet={"m0", "m1"}, MaxOps=4 if ctx.thorough else 3))
     h2c = ctx.generate(g2c, workers=4, timeout=1200)
-    if not ctx.thorough:
-        h2c = rng.sample(h2c, min(len(h2c), 500))
+    h2c = rng.sample(h2c, min(len(h2c), 5000 if ctx.thorough else 500))
     hists += h2c
     g3 = ctx.instance("G3_C01", "VolumeImpl", volfam.GEN_ALL,
                       dict(base, Datas={"e", "a", "b", "L"}, MetaSet={"m0", "m1", "m2"}, MaxOps=10))
@@ -52,5 +50,5 @@ def run(ctx):
                 "delete, reload (unmount+mount), mark read-only/writable; after every operation every (key, cookie) pair is "
                 "read back over HTTP; non-trivial = at least one successful write followed by a state-changing operation "
                 "on the same key; distinct by hash of the recorded execution")
-    ctx.exhaustive = ctx.thorough
+    ctx.exhaustive = False
     ctx.assumptions += volfam.ASSUMPTIONS
